@@ -76,9 +76,9 @@ Fixpoint cover_names (fuel : nat) (to_cover : list Z) (options : list (list Z)) 
     end
   end.
 
-(* stable sort of the known name tuples by decreasing length *)
+(* stable sort of the known name tuples by decreasing length (sorted(..., key=len, reverse=True) keeps the order of equal lengths) *)
 Fixpoint insert_len (x : list Z) (l : list (list Z)) : list (list Z) :=
-  match l with [] => [x] | y :: r => if Nat.ltb (List.length y) (List.length x) then x :: y :: r else y :: insert_len x r end.
+  match l with [] => [x] | y :: r => if Nat.ltb (List.length x) (List.length y) then y :: insert_len x r else x :: y :: r end.
 Definition by_len_desc (l : list (list Z)) : list (list Z) := fold_right insert_len [] l.
 
 Definition needed (L : labelled) (maps : list modmap) : list (list Z) * nat (* groups without a cover: warnings *) :=
